@@ -53,7 +53,7 @@ def r2(ctx, prog):
         w = rl.precedes(f, rl.call_to("mi_page_queue_remove")(f), c)
         ctx.check(R, w is None, f.where(c), "page removed from its queue before _mi_segment_page_abandon", key="C09.R2:remove_before", witness=w)
     g = prog.fn("mi_segment_abandon")
-    rm = list(g.calls("mi_segment_span_remove_from_queue"))
+    rm = rl.calls_doing(prog, g, ("mi_span_queue_delete",))
     ctx.check(R, bool(rm) and all(g.cfg.in_loop(c) for c in rm), g.where(), "free spans are removed from the span queues in the slice loop", key="C09.R2:spans")
     for c in g.calls("_mi_arena_segment_mark_abandoned"):
         later = [x for x in rm if g.cfg.reaches(g.cfg.after(c), g.cfg.pt(x))]
